@@ -1,4 +1,6 @@
+from contextvars import ContextVar
 from dataclasses import dataclass, field
+from typing import Optional
 
 from smartquery.scoped_dict import ScopedDict
 
@@ -9,3 +11,7 @@ class VMState:
     ops_evaluated: int = 0
 
     max_ops_evaluated: int = 100
+
+
+# state of the eval() call in progress: a lambda runs against it, not against the state of the eval that created it
+current_state: ContextVar[Optional[VMState]] = ContextVar('smartquery_current_state', default=None)
